@@ -1,6 +1,7 @@
 """C01 Finalization agreement: correct nodes never finalize conflicting blocks."""
 from .. import absmodel as A
 from .. import sim as S
+from .. import nodetrace as NT
 from .. import votor as V
 from .. import pool as P
 from . import c05, c06
@@ -73,6 +74,8 @@ def run(ctx):
             if "consensus safety violation" in p:
                 ctx.divergence(name, "panic:consensus safety violation", {"panic": p, "config": sc})
         rej = S.validate(ctx, "tv_" + name, trace, stakes, byz)
+        # component level: every pool call and Votor step of every correct node is a transition of Pool.tla / Votor.tla
+        NT.check(ctx, "nt_" + name, trace, stakes, [i for i in range(len(stakes)) if i not in byz], config=sc)
         if rej:
             ctx.divergence(name, S.fingerprint(rej), {"config": sc, **rej})
         elif len(ctx.samples) < 3:
